@@ -1,7 +1,7 @@
 (* C14 -- sensors are decoded only from registers that were actually fetched.
    Tables, read commands and the two meter filter limits are GENERATED from /repo on every run. *)
 From Coq Require Import ZArith List Bool String.
-From GW Require Import Prelude PyStr PyFloat Sensors TableChecks TablesGen SensorProofs TableProofs.
+From GW Require Import Prelude PyStr PyFloat Sensors TableChecks TablesGen SensorProofs ETCaps ETCapsProofs TableProofs.
 Import ListNotations.
 Open Scope Z_scope.
 
@@ -35,7 +35,16 @@ Theorem C14_no_short_read : forall first count a n (block : list Z),
   List.length (rd block ((a - first) * 2) n) = Z.to_nat n.
 Proof. exact in_window_bytes_exist. Qed.
 
+(* the pairing of window and sensor list in EVERY reachable capability state of ET (capability model Model/ETCaps.v, compared
+   with the real class on every run): after any history of read_runtime_data calls -- any refused optional blocks, any request
+   lost at any point, exception paths included -- the meter window requested next covers every meter sensor decoded from it *)
+Theorem C14_meter_window_always_covers : forall two big h,
+  let c := calls (after_device_info two big) h in
+  forallb (sensor_in_window (meter_window c)) (meter_list (meter_level c)) = true.
+Proof. exact meter_window_always_covers. Qed.
+
 Print Assumptions C14_windows_partial.
 Print Assumptions C14_mppt_refuted.
 Print Assumptions C14_variants_are_sublists.
 Print Assumptions C14_no_short_read.
+Print Assumptions C14_meter_window_always_covers.
